@@ -100,7 +100,15 @@ def convert(inp):
         s.sides = dst
         got = s._Spectrum__psd
     else:
-        got = s.get_converted_psd(dst)
+        got = np.array(s.get_converted_psd(dst))
+        # frame: a read-only conversion leaves the stored PSD and sides alone, so asking again gives the same answer
+        stored = np.asarray(s._Spectrum__psd)
+        if s._Spectrum__sides != src or len(stored) != len(psd) or not close(stored, psd):
+            return False, "NFFT=%d get_converted_psd(%r) on a %s object changed the stored PSD: %s -> %s" % (
+                N, dst, src, np.asarray(psd).tolist(), stored.tolist())
+        again = np.array(s.get_converted_psd(dst))
+        if not close(again, got):
+            return False, "NFFT=%d get_converted_psd(%r) twice on a %s object: %s then %s" % (N, dst, src, got.tolist(), again.tolist())
     nf = len(s.frequencies(dst))
     ok = close(got, want) and len(np.asarray(got)) == nf
     return ok, "NFFT=%d %s->%s psd=%s: got %s (frequencies: %d), expected %s" % (
